@@ -286,8 +286,12 @@ class Parser:
             lo = self.parse_expr(len(self.PREC) - 2)     # up to additive: `..` is not an operator here
             if paren and self.accept(')'):                # `(i + 1)..n`: the parenthesis was around the lower bound only
                 paren = False
-            self.expect('..')
-            hi = self.parse_expr(len(self.PREC) - 2)
+            if self.accept('..='):
+                # `lo..=hi`: the bound is `hi + 1` (in `usize`; the sources' bounds are limb counts, far from `usize::MAX`)
+                hi = ('bin', '+', self.parse_expr(len(self.PREC) - 2), ('lit', 1, 'usize'))
+            else:
+                self.expect('..')
+                hi = self.parse_expr(len(self.PREC) - 2)
             if paren:
                 self.expect(')')
                 self.expect('.')
@@ -421,12 +425,20 @@ class Parser:
                 else:
                     e = ('fieldname', e, v)
             elif self.accept('['):
+                one = ('lit', 1, 'usize')
                 if self.accept('..'):
                     idx = ('rangeto', self.parse_expr())      # `xs[..n]`
+                elif self.accept('..='):
+                    idx = ('rangeto', ('bin', '+', self.parse_expr(), one))      # `xs[..=n]`
                 else:
                     idx = self.parse_expr(len(self.PREC) - 2)
-                    if self.accept('..'):
-                        idx = ('rangefrom', idx)               # `xs[k..]`
+                    if self.accept('..='):
+                        idx = ('range', idx, ('bin', '+', self.parse_expr(len(self.PREC) - 2), one))
+                    elif self.accept('..'):
+                        if self.peek()[1] == ']':
+                            idx = ('rangefrom', idx)               # `xs[k..]`
+                        else:
+                            idx = ('range', idx, self.parse_expr(len(self.PREC) - 2))      # `xs[a..b]`
                 self.expect(']')
                 e = ('index', e, idx)
             elif self.peek()[1] == '(' and e[0] in ('path',):
@@ -438,7 +450,10 @@ class Parser:
     def parse_args(self):
         args = []
         while not self.accept(')'):
-            args.append(self.parse_expr())
+            a = self.parse_expr(len(self.PREC) - 2) if self.peek()[0] == 'id' and self.peek(1)[1] == '..' else self.parse_expr()
+            if self.accept('..'):
+                a = ('rangefrom', a)                  # `xs.copy_within(n.., 0)`
+            args.append(a)
             self.accept(',')
         return args
 
@@ -660,6 +675,17 @@ class Emitter:
                 raise TranslateError('suffix slicing of a non-slice')
             n_, _ = self.expr(e[2][1], env, 'usize')
             return '(%s.drop %s)' % (s_, n_), 'slice'       # `&xs[k..]` panics for k > len; callers pass k ≤ len
+        if k == 'index' and e[2][0] == 'range':
+            s_, t_ = self.expr(e[1], env)
+            if t_ not in ('slice', 'mutslice'):
+                raise TranslateError('slicing of a non-slice')
+            lo_, _ = self.expr(e[2][1], env, 'usize')
+            hi_, _ = self.expr(e[2][2], env, 'usize')
+            return '((%s.drop %s).take (%s - %s))' % (s_, lo_, hi_, lo_), 'slice'   # `&xs[a..b]` panics unless a ≤ b ≤ len
+        if k == 'getd':
+            s_, t_ = self.expr(e[1], env)
+            i_, _ = self.expr(e[2], env, 'usize')
+            return '(%s.getD %s 0)' % (s_, i_), 'u64'
         if k == 'index' and e[2][0] == 'rangeto':
             s, t = self.expr(e[1], env)
             if t not in ('slice', 'mutslice'):
@@ -1066,6 +1092,10 @@ class Emitter:
                 for n in self.target_roots(s[1]):
                     if n and n not in local and n not in out:
                         out.append(n)
+            if s[0] == 'expr' and s[1][0] == 'mcall' and s[1][2] in ('fill', 'copy_from_slice', 'copy_within'):
+                for n in self.target_roots(s[1][1]):
+                    if n and n not in local and n not in out:
+                        out.append(n)
             if s[0] == 'expr' and s[1][0] == 'mcall' and s[1][2] == 'reverse' and not s[1][3]:
                 for n in self.target_roots(s[1][1]):
                     if n and n not in local and n not in out:
@@ -1119,6 +1149,12 @@ class Emitter:
             return self.target_roots(t[1])
         return [None]
 
+    def slice_place(self, t, env):
+        """`xs` or `xs[a..b]` / `xs[..b]` / `xs[a..]` with `xs` a `&mut [u64]` variable"""
+        if t[0] == 'index' and t[2][0] in ('range', 'rangeto', 'rangefrom'):
+            t = t[1]
+        return t[0] == 'path' and len(t[1]) == 1 and env.get(t[1][0]) in ('mutslice', 'slice')
+
     def assign_lines(self, target, term, ty, env):
         """`let` lines realising `target = term`"""
         if target[0] == 'path' and len(target[1]) == 1:
@@ -1138,6 +1174,21 @@ class Emitter:
         if target[0] == 'fieldname' and target[2] == 'limbs' and target[1][0] == 'path' and len(target[1][1]) == 1 \
                 and env.get(target[1][1][0]) == 'uint':
             return 'let %s := %s\n  ' % (lean_ident(target[1][1][0]), term)
+        if target[0] == 'index' and target[2][0] in ('range', 'rangeto', 'rangefrom'):
+            base = target[1]
+            if not (base[0] == 'path' and len(base[1]) == 1 and env.get(base[1][0]) in ('slice', 'mutslice')):
+                raise TranslateError('unsupported sub-slice assignment target')
+            n = lean_ident(base[1][0])
+            r = target[2]
+            if r[0] == 'rangeto':
+                hi, _ = self.expr(r[1], env, 'usize')
+                return 'let %s := (%s ++ %s.drop %s)\n  ' % (n, term, n, hi)
+            if r[0] == 'rangefrom':
+                lo, _ = self.expr(r[1], env, 'usize')
+                return 'let %s := (%s.take %s ++ %s)\n  ' % (n, n, lo, term)
+            lo, _ = self.expr(r[1], env, 'usize')
+            hi, _ = self.expr(r[2], env, 'usize')
+            return 'let %s := (%s.take %s ++ %s ++ %s.drop %s)\n  ' % (n, n, lo, term, n, hi)
         if target[0] == 'index':
             base = target[1]
             if base[0] == 'fieldname' and base[2] == 'limbs':
@@ -1251,6 +1302,7 @@ class Emitter:
                 if a[0] == 'refmut':
                     a = a[1]
                 if not ((a[0] == 'path' and len(a[1]) == 1)
+                        or (a[0] == 'index' and a[2][0] in ('range', 'rangeto', 'rangefrom') and a[1][0] == 'path' and len(a[1][1]) == 1)
                         or (a[0] == 'fieldname' and a[2] == 'limbs' and a[1][0] == 'path' and len(a[1][1]) == 1)):
                     raise TranslateError('the `&mut [u64]` argument of %s must be a variable' % name)
                 targets.append(a)
@@ -1481,6 +1533,12 @@ class Emitter:
             env[t] = te
             body, tb = self.stmts(chain[1] + rest, env, exp, result)
             return 'let %s := %s\n  %s' % (t, se, body), tb
+        if k in ('return', 'tail') and s[1] is not None and self.mut_call(('expr', s[1])) is not None \
+                and not self.mut_call(('expr', s[1]))[2]:
+            # `return f(xs, …)` / a trailing `f(xs, …)` where `f` updates `xs`: bind the result first
+            self.tmp = getattr(self, 'tmp', 0) + 1
+            t = 'ret%d' % self.tmp
+            return self.stmts([('let', ('pid', t), None, s[1]), (k, ('path', [t]))] + rest, env, exp, result)
         mc = self.mut_call(s)
         if mc is not None:
             call, targets, unit = mc
@@ -1503,6 +1561,10 @@ class Emitter:
                     lines += self.assign_lines(s[1], t + proj, rt, env)
             body, tb = self.stmts(rest, env, exp, result)
             return lines + body, tb
+        if k == 'let' and s[3] == ('uninit',):
+            # declared here, assigned in every branch of the `if` that follows (see `desugar`); its type is that of the value
+            env[s[1][1]] = None
+            return self.stmts(rest, env, exp, result)
         if k == 'let':
             se, te = self.expr(s[3], env, self.ty(s[2]) if s[2] else None)
             if s[2]:
@@ -1528,6 +1590,12 @@ class Emitter:
             if s[1][0] == 'index':
                 hint = 'u64'
             se, te = self.expr(s[2], env, hint)
+            if s[1][0] == 'path' and len(s[1][1]) == 1 and s[1][1][0] in env and env[s[1][1][0]] is None:
+                env[s[1][1][0]] = te
+            if s[1][0] == 'tuple' and isinstance(te, tuple) and te[0] == 'tuple':
+                for x, tx in zip(s[1][1], te[1]):
+                    if x[0] == 'path' and len(x[1]) == 1 and x[1][0] in env and env[x[1][0]] is None:
+                        env[x[1][0]] = tx
             lines = self.assign_lines(s[1], se, te, env)
             body, tb = self.stmts(rest, env, exp, result)
             return lines + body, tb
@@ -1568,8 +1636,11 @@ class Emitter:
                 if not (empty(a) and empty(b)):
                     raise TranslateError('if-statement whose effect is not understood')
                 return self.stmts(rest, env, exp, result)
-            sa, _ = self.stmts(a[1], dict(env), None, av)
+            sa, tya = self.stmts(a[1], dict(env), None, av)
             sb, _ = self.stmts(b[1], dict(env), None, av) if b else self.vars_tuple(av, env)
+            for n_, t_ in zip(av, tya[1] if len(av) > 1 else [tya]):
+                if env.get(n_) is None:
+                    env[n_] = t_
             body, tb = self.stmts(rest, env, exp, result)
             if len(av) == 1:
                 return 'let %s := if %s then (\n  %s)\n  else (\n  %s)\n  %s' % (lean_ident(av[0]), sc, sa, sb, body), tb
@@ -1603,6 +1674,26 @@ class Emitter:
                 body, tb = self.stmts(rest, env, exp, result)
                 n = lean_ident(base[1][0])
                 return 'let %s := (%s).reverse\n  %s' % (n, n, body), tb
+        if k == 'expr' and s[1][0] == 'mcall' and s[1][2] in ('fill', 'copy_from_slice', 'copy_within') \
+                and self.slice_place(s[1][1], env):
+            # whole-slice updates of a `&mut [u64]` (or of a sub-slice of one)
+            tg = s[1][1]
+            cur, _ = self.expr(tg, env)
+            m, args = s[1][2], s[1][3]
+            if m == 'fill' and len(args) == 1:
+                v_, _ = self.expr(args[0], env, 'u64')
+                term = '(List.replicate (%s).length %s)' % (cur, v_)
+            elif m == 'copy_from_slice' and len(args) == 1:
+                # panics unless the lengths agree; the value written is the source
+                term, _ = self.expr(args[0], env)
+            elif m == 'copy_within' and len(args) == 2 and args[0][0] == 'rangefrom' and args[1] == ('lit', 0, None):
+                k_, _ = self.expr(args[0][1], env, 'usize')
+                term = '(%s.drop %s ++ %s.drop ((%s).length - %s))' % (cur, k_, cur, cur, k_)
+            else:
+                raise TranslateError('unsupported form of %s' % m)
+            lines = self.assign_lines(tg, term, 'slice', env)
+            body, tb = self.stmts(rest, env, exp, result)
+            return lines + body, tb
         if k == 'expr':
             e = s[1]
             if (e[0] == 'mcall' and e[1][0] == 'path' and len(e[1][1]) == 1 and env.get(e[1][1][0]) == 'uint'
@@ -1742,6 +1833,111 @@ class Emitter:
             nb = ('block', pre + nb[1])
         return nb
 
+    # ---- source-level rewrites done before translation ---------------------------------------------------------------------
+    def desugar(self, blk):
+        """meaning-preserving rewrites of the parsed body:
+        * `unsafe { xs.get_unchecked(i) }` / `get_unchecked_mut(i)` are `xs[i]` (the reference is read or written at once);
+          `let p = unsafe { xs.get_unchecked_mut(i) };` makes `p` a name for the place `xs[i]` in the rest of the block (the
+          borrow checker guarantees nothing else touches `xs` while `p` is live; `i` must be a literal);
+          a shared `let p = xs.get_unchecked(i);` reads the element there and then (no write can intervene while it is live);
+        * `xs.get(i).copied().unwrap_or_default()` is `xs[i]` or 0 beyond the end;
+        * `let pat = if c { …effects…; e1 } else { …effects…; e2 };` becomes `let t; if c { …; t = e1 } else { …; t = e2 }
+          let pat = t;` (and the same for a block-valued `let`) so that updates of slices inside the branches are kept."""
+        cnt = [0]
+
+        def strip(e):
+            while isinstance(e, tuple) and e and e[0] == 'block' and len(e[1]) == 1 and e[1][0][0] == 'tail':
+                e = e[1][0][1]
+            return e
+
+        def unchecked(e):
+            e = strip(e)
+            if isinstance(e, tuple) and e and e[0] == 'mcall' and e[2] in ('get_unchecked', 'get_unchecked_mut') and len(e[3]) == 1:
+                return e
+            return None
+
+        def ex(e):
+            if isinstance(e, list):
+                return [ex(x) for x in e]
+            if not isinstance(e, tuple) or not e:
+                return e
+            if e[0] == 'block':
+                u = unchecked(e)
+                if u is not None:
+                    return ex(u)
+                return ('block', stmts(e[1]))
+            e = tuple(ex(x) for x in e)
+            if e[0] == 'mcall' and e[2] in ('get_unchecked', 'get_unchecked_mut') and len(e[3]) == 1:
+                return ('index', e[1], e[3][0])
+            if (e[0] == 'mcall' and e[2] == 'unwrap_or_default' and not e[3] and e[1][0] == 'mcall' and e[1][2] == 'copied'
+                    and e[1][1][0] == 'mcall' and e[1][1][2] == 'get' and len(e[1][1][3]) == 1):
+                return ('getd', e[1][1][1], e[1][1][3][0])
+            return e
+
+        def subst(node, name, repl):
+            if isinstance(node, list):
+                return [subst(x, name, repl) for x in node]
+            if isinstance(node, tuple):
+                if node and node[0] == 'path' and node[1] == [name]:
+                    return repl
+                if node and node[0] == 'let' and name in self.pat_names(node[1]):
+                    raise TranslateError('a place alias is shadowed')
+                return tuple(subst(x, name, repl) for x in node)
+            return node
+
+        def effectful(node):
+            if isinstance(node, list):
+                return any(effectful(x) for x in node)
+            if isinstance(node, tuple):
+                return bool(node) and (node[0] in ('assign', 'refmut') or any(effectful(x) for x in node))
+            return False
+
+        def pat_expr(p):
+            return ('path', [p[1]]) if p[0] == 'pid' else ('tuple', [pat_expr(q) for q in p[1]])
+
+        def into(blk, target):
+            """the block with its value assigned to `target` instead of being its value"""
+            st = list(blk[1])
+            if not st or st[-1][0] not in ('tail', 'expr_nosemi'):
+                raise TranslateError('value block without a tail expression')
+            last = st[-1][1]
+            if last[0] == 'if' and last[3] is not None:
+                return ('block', st[:-1] + [('expr_nosemi', ('if', last[1], into(last[2], target), into(last[3], target)))])
+            return ('block', st[:-1] + [('assign', target, last)])
+
+        def stmts(lst):
+            out = []
+            lst = list(lst)
+            while lst:
+                st = lst.pop(0)
+                if st[0] == 'let' and st[1][0] == 'pid':
+                    u = unchecked(st[3])
+                    if u is not None and u[2] == 'get_unchecked_mut':
+                        if u[3][0][0] != 'lit':
+                            raise TranslateError('a place alias needs a literal index')
+                        lst = subst(lst, st[1][1], ('index', u[1], u[3][0]))
+                        continue
+                if st[0] == 'let' and isinstance(st[3], tuple) and st[3] and (
+                        (st[3][0] == 'if' and st[3][3] is not None) or st[3][0] == 'block') and effectful(st[3]) \
+                        and unchecked(st[3]) is None:
+                    cnt[0] += 1
+                    names = self.pat_names(st[1])
+                    fresh = dict((n, '%s_v%d' % (n, cnt[0])) for n in names if n != '_')
+
+                    def ren(p):
+                        return ('pid', fresh.get(p[1], p[1])) if p[0] == 'pid' else ('ptuple', [ren(q) for q in p[1]])
+                    tp = ren(st[1])
+                    for n in names:
+                        if n != '_':
+                            out.append(('let', ('pid', fresh[n]), None, ('uninit',)))
+                    body = into(('block', [('tail', st[3])]) if st[3][0] == 'if' else st[3], pat_expr(tp))
+                    out += stmts(body[1])
+                    out.append(('let', st[1], st[2], pat_expr(tp)))
+                    continue
+                out.append(ex(st))
+            return out
+        return ('block', stmts(blk[1]))
+
     def function(self, fn, lean_name):
         self.consts = {}
         self.tables = {}
@@ -1767,7 +1963,7 @@ class Emitter:
         self.aux = []
         self.uses_fuel = False
         self.nloops = 0
-        fbody = fn['body']
+        fbody = self.desugar(fn['body'])
         self.window_done = {}
         if any(self.ty(t) == 'mutslice' for _, t in fn['params']):
             fbody = self.window_rewrite(fbody, [n for n, t in fn['params'] if self.ty(t) == 'mutslice'])
@@ -2019,6 +2215,15 @@ def div_loop_items(repo):
             {'file': f, 'fn': 'div_nx2_normalized', 'lean': 'div_nx2_normalized', 'group': 'divloops'}]
 
 
+def knuth_items(repo):
+    """the un-normalised small divisions and Knuth's algorithm D, whole functions"""
+    a = repo + '/src/algorithms/div/'
+    return [{'file': a + 'small.rs', 'fn': 'div_nx1', 'lean': 'div_nx1', 'group': 'knuth'},
+            {'file': a + 'small.rs', 'fn': 'div_nx2', 'lean': 'div_nx2', 'group': 'knuth'},
+            {'file': a + 'knuth.rs', 'fn': 'div_nxm_normalized', 'lean': 'div_nxm_normalized', 'group': 'knuth'},
+            {'file': a + 'knuth.rs', 'fn': 'div_nxm', 'lean': 'div_nxm', 'group': 'knuth'}]
+
+
 GROUPS = [('core', 'Words', ('Ruint.Gen.Prelude',)),
           ('kernels', 'WordsKernels', ('Ruint.Gen.Words',)),
           ('uint', 'WordsUint', ('Ruint.Gen.Words', 'Ruint.Gen.WordsKernels', 'Ruint.Base', 'Ruint.Model.MulKernels')),
@@ -2027,6 +2232,7 @@ GROUPS = [('core', 'Words', ('Ruint.Gen.Prelude',)),
           ('redcloops', 'WordsRedcLoops', ('Ruint.Gen.WordsRedc',)),
           ('div', 'WordsDiv', ('Ruint.Gen.Words',)),
           ('divloops', 'WordsDivLoops', ('Ruint.Gen.WordsDiv',)),
+          ('knuth', 'WordsKnuth', ('Ruint.Gen.WordsDivLoops', 'Ruint.Gen.WordsKernels')),
           ('value', 'WordsValue', ('Ruint.Gen.Prelude', 'Ruint.Model.Modular'))]
 
 
@@ -2040,6 +2246,7 @@ def translate_all(repo):
     items += kernel_items(repo)
     items += redc_loop_items(repo)
     items += div_loop_items(repo)
+    items += knuth_items(repo)
     items += value_items(repo)
     try:
         items += lehmer_items(repo)
